@@ -261,7 +261,8 @@ def normalise(res, R, exact):
             if isinstance(m, float):
                 return ("q", "FLOAT", m * float(f), dim)
             return ("q", Fraction(m) * f, dim)
-        return ("q", float(m) * float(f), dim)
+        # (float exponents produced by auto-reduction - meter * liter -> meter ** 3.9999999999999996 - are snapped to small rationals)
+        return ("q", float(m) * float(f), {k: Fraction(v).limit_denominator(10 ** 6) for k, v in dim.items()})
     if exact and isinstance(res, float):
         return ("q", "FLOAT", res)
     return ("q", Fraction(res) if exact else float(res), {})
